@@ -43,6 +43,7 @@ fn episode(ctx: &Ctx, case: u64, out: &mut Out) -> Result<(), (Fail, String)> {
     let merge_pct = *r.pick(&[0u64, 2, 4, 8]);
     let dir = fresh_dir(&ctx.scratch, &format!("c{}", case));
     let mut e = Eng::new(r, &dir, conf, thr, keys, true);
+    e.huge_ok = case % 8 == 5;
     let res = (|| -> Result<(), Fail> {
         e.open()?;
         for _ in 0..nops {
